@@ -85,7 +85,7 @@ def generate(rng, tier):
         elif m == 8 and i % 20 == 8:
             cases.append(sc.gen_dag(rng, shared_pull=True))
         elif m == 8:
-            cases.append([sc.gen_pipeline, sc.gen_relay2, sc.gen_two_relays, sc.gen_shared_equal, sc.gen_pull_ring, sc.gen_lookahead, sc.gen_ring_mixed][(i // 20) % 7](rng))
+            cases.append([sc.gen_pipeline, sc.gen_relay2, sc.gen_two_relays, sc.gen_shared_equal, sc.gen_pull_ring, sc.gen_lookahead, sc.gen_ring_mixed, sc.gen_relay_twice][(i // 20) % 8](rng))
         else:
             cases.append(sc.gen_ring(rng))
     for i in range(40 if tier == "quick" else 1000):
